@@ -68,7 +68,8 @@ def run_outlier(run, driver, case):
         # count the reporting, expected-in-baseline rows ourselves from a run without outlier models
         op0 = dict(op)
         m0 = driver.run([op0])[0] if driver else None
-        n_rep = None if m0 is None else len(m0["rep"]) + sum(1 for r, cat in m0["nonmod"] if C.unrat(r[3]) >= C.frac(case["election"].threshold))
+        # the models are fitted on reporting units that are neither blocklisted nor zero-baseline
+        n_rep = None if m0 is None else len(m0["rep"]) + sum(1 for r, cat in m0["nonmod"] if cat == "non-modeled: strange turnout factor")
     want = set()
     if n_rep is not None and n_rep > 20:
         if p.get("fit_turnout_outlier_model"):
